@@ -576,7 +576,14 @@ func main() {
 	out := flag.String("out", "", "output directory")
 	flag.Parse()
 	var patterns []string
+	// "reset:<dir>": the package only gets the per-run reset hook for its process-wide state (pools, caches); its
+	// code is left as it is (no yields in hot inner loops that no other task shares)
+	resetOnly := map[string]bool{}
 	for _, p := range flag.Args() {
+		if strings.HasPrefix(p, "reset:") {
+			p = strings.TrimPrefix(p, "reset:")
+			resetOnly[filepath.Join(*repo, p)] = true
+		}
 		patterns = append(patterns, "./"+p)
 	}
 	cfg := &packages.Config{Mode: packages.NeedName | packages.NeedFiles | packages.NeedCompiledGoFiles | packages.NeedSyntax | packages.NeedTypes | packages.NeedTypesInfo | packages.NeedImports | packages.NeedDeps,
@@ -672,7 +679,7 @@ func main() {
 		for i, f := range p.Syntax {
 			_ = i
 			name := p.Fset.Position(f.Package).Filename
-			if strings.HasSuffix(name, "_test.go") {
+			if strings.HasSuffix(name, "_test.go") || resetOnly[filepath.Dir(name)] {
 				continue
 			}
 			in := &inst{fset: p.Fset, info: p.TypesInfo, pkg: p.Types, stats: stats, unins: &unins, repo: *repo, gen: map[ast.Stmt]bool{}}
